@@ -20,6 +20,7 @@ use jj_lib::conflicts::choose_materialized_conflict_marker_len;
 use jj_lib::conflicts::materialize_merge_result_to_bytes;
 use jj_lib::files;
 use jj_lib::files::MergeResult;
+use jj_lib::local_working_copy::LocalWorkingCopy;
 use jj_lib::merge::Merge;
 use jj_lib::merged_tree::MergedTree;
 use jj_lib::repo::Repo as _;
@@ -157,6 +158,41 @@ fn gen_terms_sandwich(rng: &mut Rng, pools: &mut Vec<&'static str>) -> Terms {
         .collect()
 }
 
+/// Terms whose contents contain marker look-alikes of length >= 7, so that the chosen marker
+/// length exceeds the minimum (11 or more). `fixed` = the corpus scenario, no randomness.
+fn gen_terms_long_markers(rng: &mut Rng, pools: &mut Vec<&'static str>, fixed: bool) -> Terms {
+    pools.push("pool:long-markers(chosen-len>=11)");
+    if fixed {
+        return vec![
+            Some((b"p0\n<<<<<<< left\nA\n=======\ns0\n".to_vec(), false)),
+            Some((b"p0\nB\ns0\n".to_vec(), false)),
+            Some((b"p0\n>>>>>>>>> r\nC\ns0\n".to_vec(), false)),
+        ];
+    }
+    let sides = 2 + rng.geometric(2) as usize;
+    let nterms = 2 * sides - 1;
+    let pre: &[u8] = if rng.chance(1, 2) { b"p0\n" } else { b"" };
+    let suf: &[u8] = if rng.chance(1, 2) { b"s0\n" } else { b"" };
+    (0..nterms)
+        .map(|k| {
+            let mut c = pre.to_vec();
+            let nl = 1 + rng.usize(3);
+            for _ in 0..nl {
+                if rng.chance(1, 2) {
+                    let ch = *rng.pick(MARKERS);
+                    let len = 7 + rng.usize(6);
+                    c.extend(std::iter::repeat_n(ch, len));
+                    c.extend_from_slice(*rng.pick(&[&b"\n"[..], b" x\n", b"\r\n"]));
+                } else {
+                    c.extend_from_slice(format!("m{}\n", k % 3).as_bytes());
+                }
+            }
+            c.extend_from_slice(suf);
+            Some((c, rng.chance(1, 4)))
+        })
+        .collect()
+}
+
 fn tval_term(t: &Option<(Vec<u8>, bool)>) -> String {
     coq::opt(t.as_ref(), |(c, x)| format!("({}, {})", coq::bytes(c), coq::b(*x)))
 }
@@ -276,26 +312,33 @@ fn main() {
         for i in ctx.indices() {
             let mut rng = ctx.rng(i);
             let mut pools: Vec<&'static str> = vec![];
+            // Sequences of snapshots of an unedited conflict materialized with markers longer
+            // than the minimum: indices 0 and 1 are a fixed corpus scenario, then 1 case in 12.
+            let fixed_case = i < 2;
+            let seq_case = fixed_case || ctx.rng(i + 5_000_000).chance(1, 12);
             let kind = match rng.below(10) {
+                _ if seq_case => 0,
                 0..=2 => 0,
                 3..=5 => 1,
                 6 => 2,
                 _ => 3,
             };
-            let terms = if (kind == 1 && rng.chance(4, 5)) || rng.chance(1, 10) {
+            let terms = if seq_case {
+                gen_terms_long_markers(&mut ctx.rng(i + 6_000_000), &mut pools, fixed_case)
+            } else if (kind == 1 && rng.chance(4, 5)) || rng.chance(1, 10) {
                 gen_terms_sandwich(&mut rng, &mut pools)
             } else {
                 gen_terms(&mut rng, &mut pools)
             };
-            let style_n = rng.usize(4);
+            let style_n = if fixed_case { [3, 0][i] } else { rng.usize(4) };
             let style = style_of(style_n);
             // Edits that produce a *different conflict* go through the API only: after a snapshot
             // the tree is passed through MergedTree::resolve() (file-level content merge of the
             // new sides and tree-level simplification, C07), which is outside this model. The
             // unedited file (kind 0) and marker-free text (kind 2) are not affected by it.
-            let want_wc = rng.chance(3, 10) && (kind == 0 || kind == 2);
+            let want_wc = (rng.chance(3, 10) && (kind == 0 || kind == 2)) || seq_case;
             let nlabels = terms.len();
-            let label_strs: Vec<String> = if rng.chance(1, 2) {
+            let label_strs: Vec<String> = if rng.chance(1, 2) || fixed_case {
                 vec![]
             } else {
                 (0..nlabels).map(|k| rng.pick(&["", "left", "right side", "b", "x y"]).to_string() + &format!("{k}")).collect()
@@ -303,6 +346,7 @@ fn main() {
 
             let mut disk_exec = false;
             let mut done = false;
+            let mut seq_terms: Vec<(bool, Option<Terms>, Option<u64>)> = vec![];
 
             if want_wc {
                 if workspaces[style_n].is_none() {
@@ -346,32 +390,86 @@ fn main() {
                             p.mat = on_disk.clone();
                         }
                         let (k2, e2, c2) = edited_content(kind, &p, &mut rng, &mut pools);
-                        if k2 != 0 || rng.chance(1, 2) {
-                            // rewrite (same bytes for kind 0: only the mtime changes)
-                            std::fs::write(&disk_path, &c2).unwrap();
-                        }
-                        {
-                            use std::os::unix::fs::PermissionsExt as _;
-                            disk_exec = std::fs::metadata(&disk_path).unwrap().permissions().mode() & 0o111 != 0;
-                        }
-                        let snap = jjv::catch(|| {
-                            let tree = tw.snapshot().unwrap();
-                            tree.path_value(path).block_on().unwrap()
-                        });
-                        let res: Option<Terms> = snap.map(|v| {
-                            v.iter()
-                                .map(|t| match t {
-                                    None => None,
-                                    Some(TreeValue::File { id, executable, .. }) => {
-                                        Some((testutils::read_file(&store, path, id), *executable))
+                        // Steps: before each snapshot the file gets the same bytes again and/or new
+                        // stat info (rewrite + newer mtime, pure touch, chmod). Kind 2 has one step.
+                        let nsteps = if fixed_case {
+                            3
+                        } else if seq_case {
+                            2 + ctx.rng(i + 7_000_000).usize(2)
+                        } else {
+                            1
+                        };
+                        let base_time = std::time::SystemTime::now();
+                        let mut seq: Vec<(bool, Option<Terms>, Option<u64>)> = vec![];
+                        let mut res: Option<Terms> = None;
+                        for step in 0..nsteps {
+                            let variant = if seq_case { (i + step) % 3 } else if k2 != 0 || rng.chance(1, 2) { 0 } else { 3 };
+                            let newer = base_time + std::time::Duration::from_secs(3 * (step as u64 + 1));
+                            match variant {
+                                0 => {
+                                    // rewrite (same bytes for kind 0) and force a newer mtime
+                                    std::fs::write(&disk_path, &c2).unwrap();
+                                    if seq_case {
+                                        std::fs::File::options().write(true).open(&disk_path).unwrap().set_modified(newer).unwrap();
                                     }
-                                    Some(other) => panic!("unexpected tree value {other:?}"),
-                                })
-                                .collect()
-                        });
-                        if res.is_none() {
-                            ctx.panicked();
+                                    pools.push("step:rewrite-identical-bytes");
+                                }
+                                1 => {
+                                    // pure touch
+                                    std::fs::File::options().write(true).open(&disk_path).unwrap().set_modified(newer).unwrap();
+                                    pools.push("step:touch");
+                                }
+                                2 => {
+                                    use std::os::unix::fs::PermissionsExt as _;
+                                    let mode = std::fs::metadata(&disk_path).unwrap().permissions().mode();
+                                    std::fs::set_permissions(&disk_path, std::fs::Permissions::from_mode(mode ^ 0o111)).unwrap();
+                                    std::fs::File::options().write(true).open(&disk_path).unwrap().set_modified(newer).unwrap();
+                                    pools.push("step:chmod");
+                                }
+                                _ => {}
+                            }
+                            let exec_now = {
+                                use std::os::unix::fs::PermissionsExt as _;
+                                std::fs::metadata(&disk_path).unwrap().permissions().mode() & 0o111 != 0
+                            };
+                            let snap = jjv::catch(|| {
+                                let tree = tw.snapshot().unwrap();
+                                tree.path_value(path).block_on().unwrap()
+                            });
+                            let step_res: Option<Terms> = snap.map(|v| {
+                                v.iter()
+                                    .map(|t| match t {
+                                        None => None,
+                                        Some(TreeValue::File { id, executable, .. }) => {
+                                            Some((testutils::read_file(&store, path, id), *executable))
+                                        }
+                                        Some(other) => panic!("unexpected tree value {other:?}"),
+                                    })
+                                    .collect()
+                            });
+                            if step_res.is_none() {
+                                ctx.panicked();
+                            }
+                            let stored_len: Option<u64> = {
+                                let wc: &LocalWorkingCopy = tw.workspace.working_copy().downcast_ref().unwrap();
+                                wc.file_states()
+                                    .unwrap()
+                                    .get(path)
+                                    .and_then(|st| st.materialized_conflict_data)
+                                    .map(|d| d.conflict_marker_len as u64)
+                            };
+                            if step == 0 {
+                                disk_exec = exec_now;
+                                res = step_res.clone();
+                            }
+                            if k2 == 0 {
+                                seq.push((exec_now, step_res, stored_len));
+                            }
                         }
+                        if seq.len() >= 2 {
+                            pools.push("pool:snapshot-sequence");
+                        }
+                        seq_terms = seq;
                         // the conflict terms as stored in the tree (ids -> contents)
                         let vals: Terms = value
                             .iter()
@@ -384,7 +482,7 @@ fn main() {
                             })
                             .collect();
                         let state: State = Some((p, k2, e2, c2, res));
-                        let term = emit_term(&vals, &state, style_n, true, disk_exec);
+                        let term = emit_term(&vals, &state, style_n, true, disk_exec, &seq_terms);
                         finish(ctx, i, term, &vals, &state, style_n, true, &mut pools);
                         done = true;
                     }
@@ -405,7 +503,7 @@ fn main() {
                     r.map(|m| m.iter().map(|t| t.as_ref().map(|id| (testutils::read_file(&store, path, id), false))).collect());
                 let vals: Terms = terms.iter().map(|t| t.as_ref().map(|(c, _)| (c.clone(), false))).collect();
                 let state: State = Some((p, k2, e2, c2, res));
-                let term = emit_term(&vals, &state, style_n, false, false);
+                let term = emit_term(&vals, &state, style_n, false, false, &[]);
                 finish(ctx, i, term, &vals, &state, style_n, false, &mut pools);
             }
         }
@@ -414,7 +512,7 @@ fn main() {
 
 type State = Option<(Prepared, u64, Option<(usize, Vec<u8>)>, Vec<u8>, Option<Terms>)>;
 
-fn emit_term(vals: &Terms, state: &State, style_n: usize, wc: bool, disk_exec: bool) -> String {
+fn emit_term(vals: &Terms, state: &State, style_n: usize, wc: bool, disk_exec: bool, seq: &[(bool, Option<Terms>, Option<u64>)]) -> String {
     let (p, kind, edit, content, res) = state.as_ref().unwrap();
     let mh_term = match &p.mh {
         MergeResult::Resolved(c) => format!("(inl {})", coq::bytes(c)),
@@ -436,6 +534,14 @@ fn emit_term(vals: &Terms, state: &State, style_n: usize, wc: bool, disk_exec: b
             coq::b(wc),
             coq::b(disk_exec),
             coq::opt(res.as_ref(), |t| coq::list(t.iter(), tval_term)),
+            coq::list(seq.iter(), |(x, v, l)| {
+                format!(
+                    "({}, {}, {})",
+                    coq::b(*x),
+                    coq::opt(v.as_ref(), |t| coq::list(t.iter(), tval_term)),
+                    coq::opt(*l, coq::n)
+                )
+            }),
         ],
     )
 }
